@@ -880,7 +880,14 @@ fn cmd_probe(args: &[String]) -> i32 {
     let mut seen: Vec<(String, Vec<u64>)> = Vec::new();
     for b in 0..n {
         let mut p = check::ref_plan(&op, &None);
-        p.threads[0][0].hash_base = Some(b);
+        if let Some(n) = arg_val(args, "--perturb").and_then(|s| s.parse::<u32>().ok()) {
+            // same hash base, varying heap layout instead
+            p.heap_perturb = n;
+            p.exec_seed = b;
+            p.threads[0][0].hash_base = Some(0);
+        } else {
+            p.threads[0][0].hash_base = Some(b);
+        }
         match forkrun::run_forked(&p, 60_000) {
             Ok(o) => {
                 let obs = &o.calls[0][0].obs;
